@@ -1,15 +1,15 @@
 SPECIFICATION Spec
 CONSTANTS
   KeyArgs <- MCKeys
-  ValArgs = {"v1", "VOVER"}
-  MaxTx = 3
-  Role = "replica"
+  ValArgs = {"v1", "VEMPTY", "VMAX", "VOVER"}
+  MaxTx = 4
+  Role = "standalone"
   MaxKeyLen = 4096
   MaxValLen = 10485760
   MaxBatch = 1000
-  Vias = {"grpc", "emb"}
-  WithApply = TRUE
-  ScanAll = FALSE
+  Vias = {"grpc"}
+  WithApply = FALSE
+  ScanAll = TRUE
 VIEW StateView
 INVARIANT Inv
 PROPERTY RejectedHasNoEffect
@@ -17,6 +17,5 @@ PROPERTY LimitsEnforced
 PROPERTY HandleUnusableAfterFinish
 PROPERTY RefinesEmbedded
 PROPERTY ReadOnlyRejectsMutators
-PROPERTY ApplyWorks
 PROPERTY NodeInfoTruthful
 CHECK_DEADLOCK FALSE
